@@ -30,59 +30,43 @@ Proof.
   rewrite IH by (intros Hin; apply H; now right). apply nth_upd_other. intros ->. apply H. now left.
 Qed.
 
-Definition good (d : nat) (t : tobj) : Prop := t_kind t = KSpline -> t_knots t = None \/ t_knots t = Some d.
+Lemma compile_t_idem : forall d t, compile_t d (compile_t d t) = compile_t d t.
+Proof. intros d [k kn g]. unfold compile_t. simpl. destruct g; reflexivity. Qed.
 
-Lemma compile_t_knots : forall d t, good d t -> t_knots (compile_t d t) = Some d.
+Lemma compile_t_fresh : forall d t, t_knots (compile_t d (fresh_term t)) = t_knots (compile_t d t).
+Proof. intros d [k kn g]. unfold compile_t, fresh_term. simpl. destruct g; reflexivity. Qed.
+
+(* after compile_ids every listed (valid) object is the compile of what it was before, however often it is listed *)
+Lemma compile_ids_in : forall d ids ts j, j < length ts ->
+  nth j (compile_ids d ids ts) dflt_t = if existsb (Nat.eqb j) ids then compile_t d (nth j ts dflt_t) else nth j ts dflt_t.
 Proof.
-  intros d [k kn] H. unfold compile_t, good in *. simpl in *. destruct k; simpl; auto.
-  destruct kn; simpl; auto. destruct (H eq_refl); congruence.
+  induction ids as [| i r IH]; intros ts j Hj; simpl; auto.
+  rewrite IH by (now rewrite upd_length).
+  destruct (Nat.eqb j i) eqn:E; simpl.
+  - apply Nat.eqb_eq in E. subst i. rewrite nth_upd_same by auto.
+    destruct (existsb (Nat.eqb j) r); [apply compile_t_idem | reflexivity].
+  - apply Nat.eqb_neq in E. rewrite nth_upd_other by auto. reflexivity.
 Qed.
 
-Lemma compile_t_keeps : forall d t, t_knots t = Some d -> t_knots (compile_t d t) = Some d.
-Proof. intros d [k kn] H. unfold compile_t. simpl in *. destruct k; simpl; auto. now rewrite H. Qed.
-
-Lemma compile_t_good : forall d t, good d t -> good d (compile_t d t).
-Proof. intros d t H _. right. now apply compile_t_knots. Qed.
-
-Lemma compile_ids_keeps : forall d ids ts j, t_knots (nth j ts dflt_t) = Some d ->
-  t_knots (nth j (compile_ids d ids ts) dflt_t) = Some d.
-Proof.
-  induction ids as [| i r IH]; intros ts j H; simpl; auto. apply IH.
-  destruct (Nat.eq_dec i j) as [-> | Hne].
-  - destruct (Nat.lt_ge_cases j (length ts)) as [Hl | Hl].
-    + rewrite nth_upd_same by auto. now apply compile_t_keeps.
-    + rewrite nth_overflow in H by lia. discriminate.
-  - now rewrite nth_upd_other.
-Qed.
-
-Lemma compile_ids_knots : forall d ids ts,
-  (forall i, In i ids -> i < length ts /\ good d (nth i ts dflt_t)) ->
-  forall j, In j ids -> t_knots (nth j (compile_ids d ids ts) dflt_t) = Some d.
-Proof.
-  induction ids as [| i r IH]; intros ts H j Hj; simpl in *; [contradiction |].
-  destruct (H i (or_introl eq_refl)) as [Hi Hg].
-  assert (Hset : t_knots (nth i (upd ts i (compile_t d (nth i ts dflt_t))) dflt_t) = Some d).
-  { rewrite nth_upd_same by auto. now apply compile_t_knots. }
-  destruct Hj as [<- | Hj]; [now apply compile_ids_keeps |].
-  apply IH; auto. intros k Hk. rewrite upd_length. destruct (H k (or_intror Hk)) as [Hk1 Hk2]. split; auto.
-  destruct (Nat.eq_dec i k) as [<- | Hne].
-  - rewrite nth_upd_same by auto. now apply compile_t_good.
-  - now rewrite nth_upd_other.
-Qed.
-
-Lemma clean_good : forall h ids d, clean h ids -> forall i, In i ids -> i < length (h_terms h) /\ good d (nth i (h_terms h) dflt_t).
-Proof. intros h ids d H i Hi. destruct (H i Hi) as [H1 H2]. split; auto. intros Hk. left. now apply H2. Qed.
+Lemma existsb_eqb_in : forall j ids, In j ids -> existsb (Nat.eqb j) ids = true.
+Proof. intros j ids H. apply existsb_exists. exists j. split; auto. apply Nat.eqb_refl. Qed.
 
 Lemma get_m_upd_same : forall h ts m x, m < length (h_models h) -> get_m (mkH ts (upd (h_models h) m x)) m = x.
 Proof. intros. unfold get_m. simpl. now apply nth_upd_same. Qed.
 
-Lemma fit_fresh : forall h m d, m < length (h_models h) -> clean h (m_terms (get_m h m)) ->
-  m_fit (get_m (step (Fit m d) h) m) = fresh_fit d (m_terms (get_m h m)) /\
-  m_terms (get_m (step (Fit m d) h) m) = m_terms (get_m h m).
+(* the fit record, and the state of the model's term objects right after fit, are those of a fresh model: for every heap *)
+Lemma fit_fresh : forall h m d, m < length (h_models h) -> valid_ids h (m_terms (get_m h m)) ->
+  let h' := step (Fit m d) h in
+  m_fit (get_m h' m) = fresh_fit h d (m_terms (get_m h m)) /\
+  m_terms (get_m h' m) = m_terms (get_m h m) /\
+  knots_of (h_terms h') (m_terms (get_m h' m)) = map (fun i => t_knots (compile_t d (fresh_term (get_t h i)))) (m_terms (get_m h m)).
 Proof.
-  intros h m d Hm Hc. simpl. unfold fit_model. rewrite get_m_upd_same by auto. simpl. split; auto.
-  unfold fresh_fit, knots_of. do 2 f_equal. apply map_ext_in. intros j Hj.
-  apply compile_ids_knots; auto. now apply clean_good.
+  intros h m d Hm Hv. cbv zeta. simpl. unfold fit_model. rewrite get_m_upd_same by auto. simpl.
+  assert (E : knots_of (compile_ids d (m_terms (get_m h m)) (h_terms h)) (m_terms (get_m h m)) =
+              map (fun i => t_knots (compile_t d (fresh_term (get_t h i)))) (m_terms (get_m h m))).
+  { unfold knots_of. apply map_ext_in. intros j Hj. rewrite compile_ids_in by (now apply Hv).
+    rewrite existsb_eqb_in by auto. unfold get_t. now rewrite compile_t_fresh. }
+  split; [| split]; auto. unfold fresh_fit. now rewrite E.
 Qed.
 
 Lemma fit_isolated : forall h m m' d, m <> m' ->
@@ -94,23 +78,26 @@ Proof.
   rewrite compile_ids_other; auto. intros Hin. now apply (Hdis j Hin).
 Qed.
 
+(* gridsearch(keep_best=True): afterwards every term object of the model is a new one *)
+Lemma keep_best_fresh_objects : forall h m d sb, m < length (h_models h) ->
+  forall i, In i (m_terms (get_m (step (GridsearchKeep m d sb) h) m)) -> length (h_terms h) <= i.
+Proof.
+  intros h m d sb Hm i Hi. simpl in Hi. unfold copy_model in Hi.
+  set (h0 := if is_fitted h m then h else mkH (compile_ids d (m_terms (get_m h m)) (h_terms h)) (h_models h)) in *.
+  assert (L0 : length (h_terms h0) = length (h_terms h)).
+  { unfold h0. destruct (is_fitted h m); auto. simpl. apply compile_ids_length. }
+  assert (M0 : h_models h0 = h_models h) by (unfold h0; destruct (is_fitted h m); auto).
+  destruct (sb && is_fitted h m); simpl in Hi; unfold get_m in Hi; simpl in Hi;
+    rewrite M0, nth_upd_same in Hi by auto; simpl in Hi; apply in_seq in Hi; lia.
+Qed.
+
 (* ------------------------------------------------------------------ witness histories *)
-Definition hist_refit := [NewTerm KSpline false; NewModel [0]; Fit 0 1].            (* then Fit 0 2 *)
-Definition hist_shared := [NewTerm KSpline false; NewModel [0]; NewModel [0]; Fit 0 1]. (* then Fit 1 2 *)
-Definition hist_shared_factor := [NewTerm KFactor false; NewModel [0]; NewModel [0]; Fit 0 1].
+Definition hist_shared (k : tkind) := [NewTerm k false; NewModel [0]; NewModel [0]; Fit 0 1].     (* then Fit 1 2 *)
 
-Lemma refit_keeps_knots :
-  m_fit (get_m (run (hist_refit ++ [Fit 0 2]) empty) 0) = Some (2, [Some 1]) /\ fresh_fit 2 [0] = Some (2, [Some 2]).
-Proof. split; reflexivity. Qed.
-
-Lemma shared_terms_share_knots :
-  m_fit (get_m (run (hist_shared ++ [Fit 1 2]) empty) 1) = Some (2, [Some 1]) /\ fresh_fit 2 [0] = Some (2, [Some 2]).
-Proof. split; reflexivity. Qed.
-
-Lemma shared_factor_changes_other_model :
-  obs (run hist_shared_factor empty) 0 = (Some (1, [Some 1]), [Some 1]) /\
-  obs (run (hist_shared_factor ++ [Fit 1 2]) empty) 0 = (Some (1, [Some 1]), [Some 2]).
-Proof. split; reflexivity. Qed.
+Lemma shared_term_changes_other_model : forall k,
+  obs (run (hist_shared k) empty) 0 = (Some (1, [Some 1]), [Some 1]) /\
+  obs (run (hist_shared k ++ [Fit 1 2]) empty) 0 = (Some (1, [Some 1]), [Some 2]).
+Proof. intros k. split; reflexivity. Qed.
 
 (* an unfitted model's keep_best=False grid search compiles the (shared) term objects of self *)
 Lemma unfitted_gridsearch_touches_terms :
